@@ -5,7 +5,7 @@
              excluded) the translator's __call__ followed by CPython's binding
              of the ORIGINAL parameters gives the bindings CPython computes for
              the ADVERTISED signature, and fails exactly when that fails. *)
-From Coq Require Import List NArith Bool Arith Lia Permutation.
+From Coq Require Import List NArith Bool Arith Lia Permutation Sorted.
 From Sigtools.Model Require Import Base Bind Algebra Modifiers.
 From Sigtools.Proofs Require Import Modifiers.
 Import ListNotations.
@@ -130,3 +130,1077 @@ Proof.
       * rewrite IH; auto.
 Qed.
 End Adm.
+
+(* ------------------------------------------------------------------ to_use at the end of the loop *)
+Section ToUse.
+Variables posos kwos : list name.
+
+Definition tu_sub (tu : list name) : Prop :=
+  forall x, mem x tu = true -> mem x posos || mem x kwos = true.
+
+Lemma mem_unchanged x y tu : mem y tu = false -> mem x tu = negb (N.eqb x y) && mem x tu.
+Proof.
+  intros H. destruct (N.eqb x y) eqn:E; simpl; auto.
+  apply N.eqb_eq in E. subst. exact H.
+Qed.
+
+Lemma mem_removed x y tu : mem x (set_remove y tu) = negb (N.eqb x y) && mem x tu.
+Proof. rewrite mem_set_remove, N.eqb_sym. reflexivity. Qed.
+
+Lemma prep_step_tu i p st st1 :
+  tu_sub (st_to_use st) -> prep_step posos kwos i p st = Ok st1 ->
+  forall x, mem x (st_to_use st1) = negb (N.eqb x (pname p)) && mem x (st_to_use st).
+Proof.
+  intros Hsub. unfold prep_step.
+  assert (Hno : mem (pname p) posos = false -> mem (pname p) kwos = false ->
+                mem (pname p) (st_to_use st) = false).
+  { intros H1 H2. destruct (mem (pname p) (st_to_use st)) eqn:E; auto.
+    apply Hsub in E. rewrite H1, H2 in E. discriminate. }
+  destruct (pkind p); simpl.
+  - destruct (mem (pname p) (st_to_use st)) eqn:Et; simpl.
+    + destruct (mem (pname p) posos); simpl; [|discriminate].
+      intros H x; inversion H; subst; simpl. apply mem_removed.
+    + intros H x; inversion H; subst; simpl. apply mem_unchanged. exact Et.
+  - destruct (mem (pname p) posos) eqn:E1.
+    + destruct (st_found_pok st); [discriminate|].
+      intros H x; inversion H; subst; simpl. apply mem_removed.
+    + destruct (mem (pname p) kwos) eqn:E2.
+      * intros H x; inversion H; subst; simpl. apply mem_removed.
+      * intros H x; inversion H; subst; simpl. apply mem_unchanged. auto.
+  - destruct (mem (pname p) (st_to_use st)) eqn:Et; simpl; [discriminate|].
+    intros H x; inversion H; subst; simpl. apply mem_unchanged. exact Et.
+  - destruct (mem (pname p) (st_to_use st)) eqn:Et; simpl.
+    + destruct (mem (pname p) kwos); simpl; [|discriminate].
+      intros H x; inversion H; subst; simpl. apply mem_removed.
+    + intros H x; inversion H; subst; simpl. apply mem_unchanged. exact Et.
+  - destruct (mem (pname p) (st_to_use st)) eqn:Et; simpl; [discriminate|].
+    intros H x; inversion H; subst; simpl. apply mem_unchanged. exact Et.
+Qed.
+
+Lemma prep_loop_tu ps : forall i st st',
+  tu_sub (st_to_use st) -> prep_loop posos kwos ps i st = Ok st' ->
+  forall x, mem x (st_to_use st') = mem x (st_to_use st) && negb (mem x (names_of ps)).
+Proof.
+  induction ps as [|p ps IH]; intros i st st' Hsub H x.
+  - simpl in H. inversion H; subst. simpl. rewrite andb_true_r. reflexivity.
+  - simpl in H. destruct (prep_step posos kwos i p st) as [st1|e] eqn:E1; simpl in H; [|discriminate].
+    pose proof (prep_step_tu _ _ _ _ Hsub E1) as H1.
+    assert (Hsub1 : tu_sub (st_to_use st1)).
+    { intros y Hy. rewrite H1 in Hy. apply andb_true_iff in Hy. apply Hsub. tauto. }
+    rewrite (IH _ _ _ Hsub1 H x), H1. simpl.
+    destruct (N.eqb x (pname p)), (mem x (st_to_use st)), (mem x (names_of ps)); reflexivity.
+Qed.
+
+Lemma is_nil_mem (l : list name) : is_nil l = true <-> forall x, mem x l = false.
+Proof.
+  destruct l as [|y l]; simpl; split; auto.
+  - discriminate.
+  - intros H. specialize (H y). rewrite N.eqb_refl in H. discriminate.
+Qed.
+
+Lemma is_nil_final tu' ns :
+  (forall x, mem x tu' = mem x (posos ++ kwos) && negb (mem x ns)) ->
+  is_nil tu' = forallb (fun x => mem x ns) (posos ++ kwos).
+Proof.
+  intros H. apply eq_true_iff_eq. rewrite is_nil_mem, forallb_forall. split.
+  - intros Hn x Hx. specialize (Hn x). rewrite H in Hn.
+    apply mem_In in Hx. rewrite Hx in Hn. simpl in Hn.
+    destruct (mem x ns); auto.
+  - intros Hf x. rewrite H. destruct (mem x (posos ++ kwos)) eqn:E; auto.
+    apply mem_In in E. rewrite (Hf x E). reflexivity.
+Qed.
+
+Lemma tu_sub_init : tu_sub (posos ++ kwos).
+Proof. intros x Hx. rewrite mem_app in Hx. exact Hx. Qed.
+
+Lemma tu_inv_init ps : tu_inv posos kwos ps (posos ++ kwos).
+Proof. intros p _. unfold named. apply mem_app. Qed.
+End ToUse.
+
+(* ------------------------------------------------------------------ the fields at the end of the loop *)
+Lemma prep_loop_fields posos kwos ps tu st :
+  validate ps = true -> (count_kind VK ps <= 1)%nat ->
+  prep_loop posos kwos ps 0%nat (mkPS [] [] [] false false tu) = Ok st ->
+  (if st_found_kws st then st_params st else st_params st ++ st_kwoparams st) = adv_spec posos kwos ps
+  /\ st_kwopos st = kwopos_from posos kwos 0 ps.
+Proof.
+  intros Hval Hc H.
+  destruct (validate_aux_vk_last _ _ _ _ Hval Hc) as (body & vkl & -> & Hb & Hvk).
+  rewrite prep_loop_app in H.
+  destruct (prep_loop posos kwos body 0 _) as [st1|e] eqn:E1; simpl in H; [|discriminate].
+  destruct (prep_loop_noVK _ _ _ _ _ _ Hb E1) as (A1 & A2 & A3 & A4). simpl in A1, A2, A3, A4.
+  assert (Hfb : filter (fun p => negb (sel_k posos kwos p) && negb (is_kind VK p)) body
+                = filter (fun p => negb (sel_k posos kwos p)) body).
+  { apply filter_ext_in'. intros x Hx. rewrite (has_kind_false _ _ Hb x Hx). apply andb_true_r. }
+  assert (Hfv : filter (is_kind VK) body = []) by (apply has_kind_filter_nil; exact Hb).
+  destruct Hvk as [->|(v & -> & Ev)].
+  - simpl in H. inversion H; subst st1. rewrite A4.
+    unfold adv_spec. rewrite !app_nil_r, Hfb, Hfv, app_nil_r, A1, A2, A3. auto.
+  - simpl in H. destruct (prep_step posos kwos _ v st1) as [st2|e] eqn:E2; simpl in H; [|discriminate].
+    inversion H; subst st2.
+    destruct (prep_step_VK _ _ _ _ _ _ Ev E2) as (B1 & B2 & B3 & B4).
+    rewrite B4. unfold adv_spec.
+    rewrite !filter_app, !map_app, Hfb, Hfv, B1, B3, A1, A2, A3. simpl.
+    rewrite (sel_k_VK _ _ v Ev). simpl.
+    assert (Ev' : is_kind VK v = true) by (unfold is_kind, kind_eqb; rewrite Ev; reflexivity).
+    rewrite Ev'. simpl. rewrite kwopos_from_app. simpl. rewrite (sel_k_VK _ _ v Ev). simpl.
+    rewrite !app_nil_r. rewrite <- !app_assoc. auto.
+Qed.
+
+(* ------------------------------------------------------------------ inspect's validation, split in three *)
+Definition rk (p : param) : nat := kind_rank (pkind p).
+
+Fixpoint ranks_ok (top : nat) (ps : list param) : bool :=
+  match ps with
+  | [] => true
+  | p :: ps' => Nat.leb top (rk p) && ranks_ok (rk p) ps'
+  end.
+
+Fixpoint defs_ok (sd : bool) (ps : list param) : bool :=
+  match ps with
+  | [] => true
+  | p :: ps' => negb (is_positional p && negb (has_def p) && sd)
+                && defs_ok (sd || (is_positional p && has_def p)) ps'
+  end.
+
+Fixpoint nodup_ok (seen : list name) (ps : list param) : bool :=
+  match ps with
+  | [] => true
+  | p :: ps' => negb (mem (pname p) seen) && nodup_ok (pname p :: seen) ps'
+  end.
+
+Lemma validate_aux_split ps : forall top sd seen,
+  validate_aux ps top sd seen = ranks_ok top ps && defs_ok sd ps && nodup_ok seen ps.
+Proof.
+  induction ps as [|p ps IH]; intros top sd seen; [reflexivity|].
+  cbn [validate_aux ranks_ok defs_ok nodup_ok]. fold (rk p).
+  destruct (Nat.ltb (rk p) top) eqn:E1.
+  - apply Nat.ltb_lt in E1. assert (E : Nat.leb top (rk p) = false) by (apply Nat.leb_gt; lia).
+    rewrite E. reflexivity.
+  - apply Nat.ltb_ge in E1. assert (E : Nat.leb top (rk p) = true) by (apply Nat.leb_le; lia).
+    rewrite E, Nat.max_l by lia.
+    destruct (is_positional p && negb (has_def p) && sd); cbn [negb andb].
+    + rewrite andb_false_r. reflexivity.
+    + destruct (mem (pname p) seen); cbn [negb andb].
+      * rewrite !andb_false_r. reflexivity.
+      * rewrite IH.
+        destruct (ranks_ok (rk p) ps), (defs_ok (sd || is_positional p && has_def p) ps),
+          (nodup_ok (pname p :: seen) ps); reflexivity.
+Qed.
+
+Definition rle (p q : param) : Prop := (rk p <= rk q)%nat.
+
+Lemma ranks_ok_iff ps : forall top,
+  ranks_ok top ps = true <-> Forall (fun p => (top <= rk p)%nat) ps /\ StronglySorted rle ps.
+Proof.
+  induction ps as [|p ps IH]; intros top; cbn [ranks_ok].
+  - split; auto. intros _. split; constructor.
+  - rewrite andb_true_iff, Nat.leb_le, IH. split.
+    + intros (H1 & H2 & H3). split.
+      * constructor; auto. eapply Forall_impl; [|exact H2]. intros q Hq. simpl in Hq. lia.
+      * constructor; auto.
+    + intros (H1 & H2). inversion H1; subst. inversion H2; subst. auto.
+Qed.
+
+Lemma SS_app (a b : list param) :
+  StronglySorted rle a -> StronglySorted rle b ->
+  (forall x y, In x a -> In y b -> rle x y) -> StronglySorted rle (a ++ b).
+Proof.
+  induction a as [|x a IH]; intros Ha Hb Hab; simpl; auto.
+  inversion Ha; subst. constructor.
+  - apply IH; auto. intros; apply Hab; auto. right; auto.
+  - apply Forall_app. split; auto.
+    apply Forall_forall. intros y Hy. apply Hab; auto. left; auto.
+Qed.
+
+Lemma SS_const (n : nat) (l : list param) : (forall x, In x l -> rk x = n) -> StronglySorted rle l.
+Proof.
+  induction l as [|x l IH]; intros H; constructor.
+  - apply IH. intros; apply H; right; auto.
+  - apply Forall_forall. intros y Hy. unfold rle. rewrite (H x), (H y); auto; [right|left]; auto.
+Qed.
+
+Lemma SS_filter f (l : list param) : StronglySorted rle l -> StronglySorted rle (filter f l).
+Proof.
+  induction l as [|x l IH]; intros H; simpl; [constructor|].
+  inversion H; subst. destruct (f x); auto.
+  constructor; auto. apply Forall_forall. intros y Hy. apply filter_In in Hy.
+  rewrite Forall_forall in H3. apply H3. tauto.
+Qed.
+
+Lemma nodup_ok_iff ps : forall seen,
+  nodup_ok seen ps = true <-> NoDup (names_of ps) /\ forall x, In x (names_of ps) -> ~ In x seen.
+Proof.
+  induction ps as [|p ps IH]; intros seen; cbn [nodup_ok names_of map].
+  - split; auto. intros _. split; [constructor | intros x []].
+  - rewrite andb_true_iff, negb_true_iff, mem_false_In, IH. fold (names_of ps). split.
+    + intros (H1 & H2 & H3). split.
+      * constructor; auto. intro Hin. apply (H3 _ Hin). left; reflexivity.
+      * intros x [<-|Hx]; auto. intro Hs. apply (H3 _ Hx). right; exact Hs.
+    + intros (H1 & H2). inversion H1; subst. repeat split; auto.
+      * apply H2. left; reflexivity.
+      * intros x Hx [<-|Hs]; [contradiction|]. apply (H2 x); auto. right; exact Hx.
+Qed.
+
+Lemma defs_ok_mono l : forall a b, defs_ok (a || b) l = true -> defs_ok a l = true.
+Proof.
+  induction l as [|p l IH]; intros a b H; auto.
+  cbn [defs_ok] in *. apply andb_true_iff in H. destruct H as [H1 H2].
+  apply andb_true_iff. split.
+  - destruct (is_positional p && negb (has_def p)), a, b; simpl in *; auto.
+  - apply (IH _ b). rewrite <- H2. f_equal.
+    destruct a, b, (is_positional p && has_def p); reflexivity.
+Qed.
+
+Lemma defs_ok_drop sd p l : defs_ok sd (p :: l) = true -> defs_ok sd l = true.
+Proof.
+  cbn [defs_ok]. intros H. apply andb_true_iff in H. destruct H as [_ H].
+  exact (defs_ok_mono _ _ _ H).
+Qed.
+
+Lemma defs_ok_nonpos l : forall sd a,
+  (forall p, In p l -> is_positional p = false) -> defs_ok sd (a ++ l) = defs_ok sd a.
+Proof.
+  intros sd a Hl. revert sd. induction a as [|q a IH]; intros sd; simpl.
+  - induction l as [|p l IHl]; auto. cbn [defs_ok].
+    rewrite (Hl p (or_introl eq_refl)). simpl. rewrite orb_false_r. apply IHl.
+    intros; apply Hl; right; auto.
+  - rewrite IH. reflexivity.
+Qed.
+
+(* ------------------------------------------------------------------ the rewrite of a valid signature is valid *)
+Section Valid.
+Variables posos kwos : list name.
+Notation selk := (sel_k posos kwos).
+Notation selp := (sel_p posos).
+Notation cnv := (conv posos).
+
+Definition Xp (ps : list param) : list param :=
+  map cnv (filter (fun p => negb (selk p) && negb (is_kind VK p)) ps).
+Definition Kk (ps : list param) : list param := map (set_kind KO) (filter selk ps).
+Definition Vk (ps : list param) : list param := filter (is_kind VK) ps.
+
+Lemma adv_spec_parts ps : adv_spec posos kwos ps = Xp ps ++ Kk ps ++ Vk ps.
+Proof. reflexivity. Qed.
+
+Lemma nonPK_sel p : is_kind PK p = false -> selk p = false /\ selp p = false.
+Proof. unfold sel_k, sel_p. intros ->. auto. Qed.
+
+Lemma selk_notVK p : selk p = true -> is_kind VK p = false.
+Proof.
+  intros H. apply selk_PK in H. unfold is_kind, kind_eqb. rewrite H. reflexivity.
+Qed.
+
+Lemma pname_cnv p : pname (cnv p) = pname p.
+Proof. unfold conv. destruct (selp p); reflexivity. Qed.
+Lemma pdef_cnv p : pdef (cnv p) = pdef p.
+Proof. unfold conv. destruct (selp p); reflexivity. Qed.
+Lemma has_def_cnv p : has_def (cnv p) = has_def p.
+Proof. unfold has_def. rewrite pdef_cnv. reflexivity. Qed.
+Lemma is_positional_cnv p : is_positional (cnv p) = is_positional p.
+Proof.
+  unfold conv. destruct (selp p) eqn:E; auto.
+  unfold sel_p in E. apply andb_true_iff in E. destruct E as [E _]. apply is_kind_PK in E.
+  unfold is_positional. rewrite E. reflexivity.
+Qed.
+
+Lemma names_cnv l : names_of (map cnv l) = names_of l.
+Proof. unfold names_of. rewrite map_map. apply map_ext. intros; apply pname_cnv. Qed.
+Lemma names_setkind k l : names_of (map (set_kind k) l) = names_of l.
+Proof. unfold names_of. rewrite map_map. reflexivity. Qed.
+
+Lemma names_perm ps :
+  Permutation (names_of ps) (names_of (Xp ps) ++ names_of (Kk ps) ++ names_of (Vk ps)).
+Proof.
+  unfold Xp, Kk, Vk. rewrite names_cnv, names_setkind.
+  induction ps as [|p ps IH]; [constructor|].
+  cbn [filter]. destruct (is_kind VK p) eqn:Ev.
+  - assert (Es : selk p = false).
+    { destruct (selk p) eqn:E; auto. apply selk_notVK in E. congruence. }
+    rewrite Es. cbn [negb andb names_of map]. fold (names_of ps).
+    rewrite app_assoc. apply Permutation_cons_app. rewrite <- app_assoc. exact IH.
+  - destruct (selk p) eqn:Es; cbn [negb andb names_of map].
+    + apply Permutation_cons_app. exact IH.
+    + apply perm_skip. exact IH.
+Qed.
+
+Lemma rk_PK p : is_kind PK p = true -> rk p = 1%nat.
+Proof. intros H. apply is_kind_PK in H. unfold rk. rewrite H. reflexivity. Qed.
+
+Lemma rk_cnv p : rk (cnv p) = if selp p then 0%nat else rk p.
+Proof. unfold conv. destruct (selp p); reflexivity. Qed.
+
+Lemma in_Xp q ps : In q (Xp ps) ->
+  exists p, In p ps /\ q = cnv p /\ selk p = false /\ is_kind VK p = false.
+Proof.
+  unfold Xp. intros H. apply in_map_iff in H. destruct H as (p & <- & Hp).
+  apply filter_In in Hp. destruct Hp as [Hp Hc]. apply andb_true_iff in Hc.
+  destruct Hc as [H1 H2]. apply negb_true_iff in H1, H2. eauto.
+Qed.
+
+Lemma Xp_sorted ps : forall found,
+  StronglySorted rle ps -> po_prefix_ok posos kwos ps found = true ->
+  (found = true -> Forall (fun p => (1 <= rk p)%nat) ps) ->
+  StronglySorted rle (Xp ps) /\ (found = true -> Forall (fun q => (1 <= rk q)%nat) (Xp ps)).
+Proof.
+  induction ps as [|p ps IH]; intros found Hss Hpo Hf.
+  - split; [constructor | intros; constructor].
+  - inversion Hss as [|x l Hss' Hle]; subst x l.
+    cbn [po_prefix_ok] in Hpo. unfold Xp. cbn [filter]. fold (Xp ps).
+    assert (Hf' : found = true -> Forall (fun q => (1 <= rk q)%nat) ps).
+    { intros E. specialize (Hf E). inversion Hf; auto. }
+    destruct (is_kind PK p) eqn:Epk.
+    + assert (Ev : is_kind VK p = false).
+      { apply is_kind_PK in Epk. unfold is_kind, kind_eqb. rewrite Epk. reflexivity. }
+      destruct (mem (pname p) posos) eqn:E1.
+      * (* becomes positional-only *)
+        apply andb_true_iff in Hpo. destruct Hpo as [Hnf Hpo]. apply negb_true_iff in Hnf.
+        assert (Es : selk p = false) by (unfold sel_k; rewrite Epk, E1; reflexivity).
+        assert (Ep : selp p = true) by (unfold sel_p; rewrite Epk, E1; reflexivity).
+        rewrite Es, Ev. cbn [negb andb map].
+        destruct (IH found Hss' Hpo Hf') as [I1 I2]. split.
+        -- constructor; auto. apply Forall_forall. intros q _. unfold rle.
+           rewrite rk_cnv, Ep. lia.
+        -- intros E. congruence.
+      * destruct (mem (pname p) kwos) eqn:E2.
+        -- (* moved *)
+           assert (Es : selk p = true) by (unfold sel_k; rewrite Epk, E1, E2; reflexivity).
+           rewrite Es. cbn [negb andb]. apply IH; auto.
+        -- (* stays regular *)
+           assert (Es : selk p = false) by (unfold sel_k; rewrite Epk, E1, E2; reflexivity).
+           assert (Ep : selp p = false) by (unfold sel_p; rewrite Epk, E1; reflexivity).
+           rewrite Es, Ev. cbn [negb andb map].
+           assert (Hall : Forall (fun q => (1 <= rk q)%nat) ps).
+           { eapply Forall_impl; [|exact Hle]. intros q Hq. unfold rle in Hq.
+             rewrite (rk_PK _ Epk) in Hq. exact Hq. }
+           destruct (IH true Hss' Hpo (fun _ => Hall)) as [I1 I2].
+           assert (Hc : cnv p = p) by (unfold conv; rewrite Ep; reflexivity).
+           rewrite Hc. specialize (I2 eq_refl). split.
+           ++ constructor; auto. eapply Forall_impl; [|exact I2].
+              intros q Hq. unfold rle. rewrite (rk_PK _ Epk). exact Hq.
+           ++ intros _. constructor; auto. rewrite (rk_PK _ Epk). lia.
+    + destruct (nonPK_sel _ Epk) as [Es Ep]. rewrite Es.
+      destruct (is_kind VK p) eqn:Ev; cbn [negb andb map].
+      * apply IH; auto.
+      * destruct (IH found Hss' Hpo Hf') as [I1 I2].
+        assert (Hc : cnv p = p) by (unfold conv; rewrite Ep; reflexivity).
+        rewrite Hc. split.
+        -- constructor; auto. apply Forall_forall. intros q' Hq'.
+           apply in_Xp in Hq'. destruct Hq' as (q & Hq & -> & _ & _).
+           rewrite Forall_forall in Hle. specialize (Hle q Hq). unfold rle in *.
+           rewrite rk_cnv. destruct (selp q) eqn:Eq; auto.
+           unfold sel_p in Eq. apply andb_true_iff in Eq. destruct Eq as [Eq _].
+           rewrite (rk_PK _ Eq) in Hle.
+           assert (rk p <> 1%nat).
+           { unfold rk. unfold is_kind, kind_eqb in Epk. simpl in Epk.
+             apply Nat.eqb_neq in Epk. exact Epk. }
+           lia.
+        -- intros E. constructor; auto. specialize (Hf E). inversion Hf; auto.
+Qed.
+
+Lemma defs_Xp ps : forall sd, defs_ok sd ps = true -> defs_ok sd (Xp ps) = true.
+Proof.
+  induction ps as [|p ps IH]; intros sd H; auto.
+  unfold Xp. cbn [filter]. fold (Xp ps).
+  destruct (negb (selk p) && negb (is_kind VK p)).
+  - cbn [map defs_ok] in *. rewrite is_positional_cnv, has_def_cnv.
+    apply andb_true_iff in H. destruct H as [H1 H2]. rewrite H1. simpl. apply IH. exact H2.
+  - apply IH. exact (defs_ok_drop _ _ _ H).
+Qed.
+
+Lemma adv_valid ps :
+  validate ps = true -> po_prefix_ok posos kwos ps false = true ->
+  validate (adv_spec posos kwos ps) = true.
+Proof.
+  unfold validate. rewrite !validate_aux_split, !andb_true_iff.
+  intros [[Hr Hd] Hn] Hpo. rewrite adv_spec_parts.
+  apply ranks_ok_iff in Hr. destruct Hr as [_ Hss].
+  assert (HK : forall x, In x (Kk ps) -> rk x = 3%nat).
+  { unfold Kk. intros x Hx. apply in_map_iff in Hx. destruct Hx as (p & <- & _). reflexivity. }
+  assert (HV : forall x, In x (Vk ps) -> rk x = 4%nat).
+  { unfold Vk. intros x Hx. apply filter_In in Hx. destruct Hx as [_ Hx].
+    apply is_kind_eq in Hx. unfold rk. rewrite Hx. reflexivity. }
+  assert (HX : forall x, In x (Xp ps) -> (rk x <= 3)%nat).
+  { intros x Hx. apply in_Xp in Hx. destruct Hx as (p & _ & -> & _ & Hv).
+    rewrite rk_cnv. destruct (selp p); [lia|].
+    unfold rk. unfold is_kind, kind_eqb in Hv. destruct (pkind p); simpl in *; try lia; try discriminate. }
+  repeat split.
+  - apply ranks_ok_iff. split.
+    + apply Forall_forall. intros; lia.
+    + destruct (Xp_sorted ps false Hss Hpo) as [Hsx _]; [discriminate|].
+      apply SS_app; auto.
+      * apply SS_app; [exact (SS_const 3 _ HK) | exact (SS_const 4 _ HV) |].
+        intros x y Hx Hy. unfold rle. rewrite (HK x Hx), (HV y Hy). lia.
+      * intros x y Hx Hy. unfold rle. specialize (HX x Hx).
+        apply in_app_or in Hy. destruct Hy as [Hy|Hy]; [rewrite (HK y Hy) | rewrite (HV y Hy)]; lia.
+  - rewrite defs_ok_nonpos.
+    + apply defs_Xp. exact Hd.
+    + intros p Hp. apply in_app_or in Hp. destruct Hp as [Hp|Hp].
+      * unfold Kk in Hp. apply in_map_iff in Hp. destruct Hp as (q & <- & _). reflexivity.
+      * unfold Vk in Hp. apply filter_In in Hp. destruct Hp as [_ Hp]. apply is_kind_eq in Hp.
+        unfold is_positional. rewrite Hp. reflexivity.
+  - apply nodup_ok_iff. apply nodup_ok_iff in Hn. destruct Hn as [Hn _]. split; [|intros x _ []].
+    unfold names_of. rewrite !map_app. fold (names_of (Xp ps)) (names_of (Kk ps)) (names_of (Vk ps)).
+    eapply Permutation_NoDup; [apply names_perm | exact Hn].
+Qed.
+End Valid.
+
+(* ------------------------------------------------------------------ C12_sig *)
+Theorem C12_sig ps posos kwos :
+  valid_sig ps = true ->
+  prepare ps posos kwos =
+  if admissible posos kwos ps
+  then Ok (adv_spec posos kwos ps, kwopos_from posos kwos 0 ps)
+  else Err ValueErr.
+Proof.
+  intros Hv. apply valid_sig_parts in Hv. destruct Hv as [Hval Hc].
+  destruct (validate_aux_nodup _ _ _ _ Hval) as [Hnd _].
+  unfold prepare, admissible.
+  destruct (is_nil (set_inter posos kwos)); cbn [negb andb]; [|reflexivity].
+  pose proof (prep_loop_ok posos kwos ps 0%nat (mkPS [] [] [] false false (posos ++ kwos)) Hnd
+                (tu_inv_init posos kwos ps)) as Hok.
+  cbn [st_found_pok] in Hok.
+  destruct (prep_loop posos kwos ps 0 _) as [st|e] eqn:El; cbn [isOk bind] in *.
+  - symmetry in Hok. apply andb_true_iff in Hok. destruct Hok as [Hk Hpo].
+    rewrite Hk, Hpo, !andb_true_r.
+    pose proof (prep_loop_tu posos kwos ps 0%nat (mkPS [] [] [] false false (posos ++ kwos)) st
+                  (tu_sub_init posos kwos) El) as Htu.
+    cbn [st_to_use] in Htu.
+    replace (is_nil (st_to_use st)) with (forallb (fun x => mem x (names_of ps)) (posos ++ kwos))
+      by (symmetry; exact (is_nil_final posos kwos _ _ Htu)).
+    destruct (prep_loop_fields _ _ _ _ _ Hval Hc El) as [Hp Hkp].
+    destruct (forallb (fun x => mem x (names_of ps)) (posos ++ kwos)); cbn [negb]; [|reflexivity].
+    rewrite Hp, Hkp, (adv_valid posos kwos ps Hval Hpo). reflexivity.
+  - rewrite (prep_loop_err _ _ _ _ _ _ El).
+    destruct (forallb (fun x => mem x (names_of ps)) (posos ++ kwos)),
+      (forallb (kind_sel_ok posos kwos) ps), (po_prefix_ok posos kwos ps false);
+      simpl in *; try reflexivity; discriminate.
+Qed.
+
+(* ------------------------------------------------------------------ shape of a valid signature *)
+Lemma validate_aux_app_tail a : forall b top sd seen,
+  validate_aux (a ++ b) top sd seen = true ->
+  exists top' sd' seen', validate_aux b top' sd' seen' = true.
+Proof.
+  induction a as [|p a IH]; intros b top sd seen H; simpl in H; [eauto|].
+  change (validate_aux ((p :: a) ++ b) top sd seen = true) in H. simpl app in H.
+  apply validate_aux_tail in H. destruct H as (_ & _ & sd' & H). eauto.
+Qed.
+
+Lemma count_kind_app k a b : count_kind k (a ++ b) = (count_kind k a + count_kind k b)%nat.
+Proof. unfold count_kind. rewrite filter_app, app_length. reflexivity. Qed.
+
+Lemma valid_structure ps : valid_sig ps = true ->
+  exists pos mid vkl,
+    ps = pos ++ mid ++ vkl /\ forallb is_positional pos = true /\
+    (forall p, In p mid -> is_positional p = false /\ is_kind VK p = false) /\
+    (vkl = [] \/ exists v, vkl = [v] /\ pkind v = VK) /\ NoDup (names_of ps).
+Proof.
+  intros Hv. apply valid_sig_parts in Hv. destruct Hv as [Hval Hc].
+  destruct (validate_aux_nodup _ _ _ _ Hval) as [Hnd _].
+  destruct (validate_aux_pos_prefix _ _ _ _ Hval) as (pos & rest & -> & Hpos & Hrest).
+  destruct (validate_aux_app_tail _ _ _ _ _ Hval) as (top' & sd' & seen' & Hr).
+  rewrite count_kind_app in Hc.
+  assert (Hc' : (count_kind VK rest <= 1)%nat) by lia.
+  destruct (validate_aux_vk_last _ _ _ _ Hr Hc') as (body & vkl & -> & Hb & Hvk).
+  exists pos, body, vkl. repeat split; auto.
+  - apply Hrest. apply in_or_app. left; exact H.
+  - exact (has_kind_false _ _ Hb p H).
+Qed.
+
+(* ------------------------------------------------------------------ facts about the binder *)
+Lemma bind_app all a : forall b args kws,
+  bind_params all (a ++ b) args kws =
+  match bind_params all a args kws with
+  | Some (e1, r) => match bind_params all b r kws with
+                    | Some (e2, r2) => Some (e1 ++ e2, r2)
+                    | None => None
+                    end
+  | None => None
+  end.
+Proof.
+  induction a as [|p a IH]; intros b args kws.
+  - simpl. destruct (bind_params all b args kws) as [[e2 r2]|]; reflexivity.
+  - assert (Hoc : forall x args', opt_cons x (bind_params all (a ++ b) args' kws) =
+             match opt_cons x (bind_params all a args' kws) with
+             | Some (e1, r) => match bind_params all b r kws with
+                               | Some (e2, r2) => Some (e1 ++ e2, r2)
+                               | None => None
+                               end
+             | None => None
+             end).
+    { intros x args'. rewrite IH. destruct (bind_params all a args' kws) as [[e1 r]|]; simpl; auto.
+      destruct (bind_params all b r kws) as [[e2 r2]|]; reflexivity. }
+    simpl. destruct (pkind p).
+    + destruct args as [|x args]; [destruct (pdef p)|]; auto.
+    + destruct args as [|x args].
+      * destruct (klookup (pname p) kws); [|destruct (pdef p)]; auto.
+      * destruct (kmem (pname p) kws); auto.
+    + auto.
+    + destruct (klookup (pname p) kws); [|destruct (pdef p)]; auto.
+    + auto.
+Qed.
+
+Lemma bind_ext a1 a2 l : forall r k1 k2,
+  (forall p, In p l -> klookup (pname p) k1 = klookup (pname p) k2) ->
+  kw_extra a1 k1 = kw_extra a2 k2 ->
+  bind_params a1 l r k1 = bind_params a2 l r k2.
+Proof.
+  induction l as [|p l IH]; intros r k1 k2 Hl He; [reflexivity|].
+  assert (Hp := Hl p (or_introl eq_refl)).
+  assert (Hl' : forall q, In q l -> klookup (pname q) k1 = klookup (pname q) k2)
+    by (intros q Hq; apply Hl; right; exact Hq).
+  simpl. unfold kmem. rewrite Hp, He.
+  destruct (pkind p).
+  - destruct r; [destruct (pdef p)|]; auto; rewrite (IH _ k1 k2); auto.
+  - destruct r.
+    + destruct (klookup (pname p) k2); [|destruct (pdef p)]; auto; rewrite (IH _ k1 k2); auto.
+    + destruct (isSome (klookup (pname p) k2)); auto. rewrite (IH _ k1 k2); auto.
+  - rewrite (IH _ k1 k2); auto.
+  - destruct (klookup (pname p) k2); [|destruct (pdef p)]; auto; rewrite (IH _ k1 k2); auto.
+  - rewrite (IH _ k1 k2); auto.
+Qed.
+
+(* keyword-only parameters and **kwargs leave the positional arguments alone *)
+Lemma bind_transparent all l : forall r kws,
+  (forall p, In p l -> pkind p = KO \/ pkind p = VK) ->
+  bind_params all l r kws =
+  match bind_params all l [] kws with Some (e, _) => Some (e, r) | None => None end.
+Proof.
+  induction l as [|p l IH]; intros r kws Hl; [reflexivity|].
+  assert (Hl' : forall q, In q l -> pkind q = KO \/ pkind q = VK)
+    by (intros q Hq; apply Hl; right; exact Hq).
+  assert (Hoc : forall x, opt_cons x (bind_params all l r kws) =
+                match opt_cons x (bind_params all l [] kws) with
+                | Some (e, _) => Some (e, r) | None => None end).
+  { intros x. rewrite (IH r kws Hl'). destruct (bind_params all l [] kws) as [[e r0]|]; reflexivity. }
+  simpl. destruct (Hl p (or_introl eq_refl)) as [E|E]; rewrite E.
+  - destruct (klookup (pname p) kws); [|destruct (pdef p)]; auto.
+  - auto.
+Qed.
+
+Lemma kw_extra_kremove all x kws :
+  kwpassable_name all x = true -> kw_extra all (kremove x kws) = kw_extra all kws.
+Proof.
+  intros Hx. unfold kw_extra. induction kws as [|[k v] kws IH]; simpl; auto.
+  destruct (N.eqb x k) eqn:E.
+  - apply N.eqb_eq in E. subst k. rewrite Hx. simpl. exact IH.
+  - simpl. rewrite IH. reflexivity.
+Qed.
+
+Lemma klookup_none_kremove x y kws : klookup x kws = None -> klookup x (kremove y kws) = None.
+Proof.
+  induction kws as [|[k v] kws IH]; simpl; auto.
+  destruct (N.eqb x k) eqn:E1; [discriminate|]. intros H.
+  destruct (N.eqb y k); simpl; auto. rewrite E1. auto.
+Qed.
+
+(* ------------------------------------------------------------------ pieces of the call theorem *)
+Section CallFull.
+Variables posos kwos : list name.
+Notation selk := (sel_k posos kwos).
+Notation selp := (sel_p posos).
+Notation cnv := (conv posos).
+
+(* a moved parameter without default that the call does not name *)
+Definition missingb (pos : list param) (kws : kwargs) : bool :=
+  existsb (fun p => selk p && negb (has_def p) && negb (kmem (pname p) kws)) pos.
+
+Lemma missingb_false pos kws : missingb pos kws = false -> no_missing posos kwos pos kws.
+Proof.
+  unfold missingb. intros H p Hp Hs Hd Hk.
+  assert (Hex : existsb (fun p => selk p && negb (has_def p) && negb (kmem (pname p) kws)) pos = true).
+  { apply existsb_exists. exists p. split; auto.
+    unfold has_def, kmem. rewrite Hs, Hd, Hk. reflexivity. }
+  congruence.
+Qed.
+
+Lemma missingb_kremove x pos kws :
+  ~ In x (names_of pos) -> missingb pos (kremove x kws) = missingb pos kws.
+Proof.
+  unfold missingb. induction pos as [|p pos IH]; intros Hx; simpl; auto.
+  rewrite IH by (intro H; apply Hx; right; exact H).
+  unfold kmem. rewrite klookup_kremove_other; auto.
+  intro E. apply Hx. left. exact E.
+Qed.
+
+Lemma call_loop_m_mono kp : forall args kws m,
+  m <> [] -> snd (call_loop kp args kws m) <> [].
+Proof.
+  induction kp as [|[i p] kp IH]; intros args kws m Hm; simpl; auto.
+  destruct (klookup (pname p) kws).
+  - destruct (Nat.ltb i (length args)); apply IH; auto.
+  - destruct (pdef p).
+    + destruct (Nat.ltb i (length args)); apply IH; auto.
+    + apply IH. destruct m; simpl; discriminate.
+Qed.
+
+Lemma call_loop_missing pos : forall i args kws m,
+  NoDup (names_of pos) -> missingb pos kws = true ->
+  snd (call_loop (kwopos_from posos kwos i pos) args kws m) <> [].
+Proof.
+  induction pos as [|p pos IH]; intros i args kws m Hnd Hm; [discriminate|].
+  inversion Hnd as [|x l Hnotin Hnd']; subst x l.
+  unfold missingb in Hm. cbn [existsb] in Hm. fold (missingb pos kws) in Hm.
+  cbn [kwopos_from]. destruct (selk p) eqn:Es; cbn [app].
+  - cbn [call_loop]. unfold kmem, has_def in Hm.
+    destruct (klookup (pname p) kws) eqn:Ek.
+    + simpl in Hm. rewrite andb_false_r in Hm. simpl in Hm.
+      destruct (Nat.ltb i (length args)).
+      * apply IH; auto. rewrite missingb_kremove; auto.
+      * apply IH; auto.
+    + destruct (pdef p) eqn:Ed.
+      * simpl in Hm. destruct (Nat.ltb i (length args)); apply IH; auto.
+      * apply call_loop_m_mono. destruct m; simpl; discriminate.
+  - simpl in Hm. apply IH; auto.
+Qed.
+
+Lemma Kp_none pos : forall l kws a,
+  missingb pos kws = true -> bind_params a (Kp posos kwos pos) l kws = None.
+Proof.
+  induction pos as [|p pos IH]; intros l kws a Hm; [discriminate|].
+  unfold missingb in Hm. cbn [existsb] in Hm. fold (missingb pos kws) in Hm.
+  unfold Kp. cbn [filter]. destruct (selk p) eqn:Es; cbn [map]; fold (Kp posos kwos pos).
+  - cbn [bind_params set_kind pkind pname pdef]. unfold kmem, has_def in Hm.
+    destruct (klookup (pname p) kws) eqn:Ek.
+    + simpl in Hm. rewrite andb_false_r in Hm. simpl in Hm. rewrite IH; auto.
+    + destruct (pdef p) eqn:Ed; auto. simpl in Hm. rewrite IH; auto.
+  - simpl in Hm. apply IH; auto.
+Qed.
+
+Lemma kw_extra_shufT all pos : forall args kws,
+  (forall p, In p pos -> selk p = true -> kwpassable_name all (pname p) = true) ->
+  kw_extra all (snd (shufT posos kwos pos args kws)) = kw_extra all kws.
+Proof.
+  induction pos as [|p pos IH]; intros args kws H; [reflexivity|].
+  assert (H' : forall q, In q pos -> selk q = true -> kwpassable_name all (pname q) = true)
+    by (intros q Hq; apply H; right; exact Hq).
+  cbn [shufT]. destruct (selk p) eqn:Es.
+  - destruct args as [|a args]; [apply IH; auto|].
+    destruct (klookup (pname p) kws).
+    + cbn [snd]. rewrite IH by auto. apply kw_extra_kremove. apply H; auto. left; reflexivity.
+    + destruct (pdef p); cbn [snd]; apply IH; auto.
+  - destruct args as [|a args]; cbn [snd]; apply IH; auto.
+Qed.
+
+(* existsb over the rewritten parameter list *)
+Lemma existsb_adv (f : param -> bool) ps :
+  (forall p, selk p = false -> f (cnv p) = f p) ->
+  (forall p, selk p = true -> f (set_kind KO p) = f p) ->
+  existsb f (adv_spec posos kwos ps) = existsb f ps.
+Proof.
+  intros H1 H2. rewrite adv_spec_parts, !existsb_app. unfold Xp, Kk, Vk.
+  induction ps as [|p ps IH]; [reflexivity|].
+  cbn [filter existsb]. rewrite <- IH.
+  destruct (is_kind VK p) eqn:Ev.
+  - assert (Es : selk p = false).
+    { destruct (selk p) eqn:E; auto. apply selk_notVK in E. congruence. }
+    rewrite Es. cbn [negb andb existsb map].
+    destruct (f p), (existsb f (map cnv (filter (fun p0 => negb (selk p0) && negb (is_kind VK p0)) ps))),
+      (existsb f (map (set_kind KO) (filter selk ps))), (existsb f (filter (is_kind VK) ps)); reflexivity.
+  - destruct (selk p) eqn:Es; cbn [negb andb existsb map].
+    + rewrite (H2 p Es).
+      destruct (f p), (existsb f (map cnv (filter (fun p0 => negb (selk p0) && negb (is_kind VK p0)) ps))),
+        (existsb f (map (set_kind KO) (filter selk ps))), (existsb f (filter (is_kind VK) ps)); reflexivity.
+    + rewrite (H1 p Es).
+      destruct (f p), (existsb f (map cnv (filter (fun p0 => negb (selk p0) && negb (is_kind VK p0)) ps))),
+        (existsb f (map (set_kind KO) (filter selk ps))), (existsb f (filter (is_kind VK) ps)); reflexivity.
+Qed.
+
+Lemma has_kind_VK_adv ps : has_kind VK (adv_spec posos kwos ps) = has_kind VK ps.
+Proof.
+  unfold has_kind. apply existsb_adv.
+  - intros p _. unfold conv. destruct (selp p) eqn:E; auto.
+    unfold sel_p in E. apply andb_true_iff in E. destruct E as [E _]. apply is_kind_PK in E.
+    unfold is_kind, kind_eqb. rewrite E. reflexivity.
+  - intros p Es. apply selk_PK in Es. unfold is_kind, kind_eqb. rewrite Es. reflexivity.
+Qed.
+
+(* a name outside posoargs is keyword-passable after the rewrite iff it was before *)
+Lemma passable_adv ps k : mem k posos = false ->
+  kwpassable_name (adv_spec posos kwos ps) k = kwpassable_name ps k.
+Proof.
+  intros Hk. unfold kwpassable_name. apply existsb_adv.
+  - intros p _. unfold conv. destruct (selp p) eqn:E; auto.
+    unfold sel_p in E. apply andb_true_iff in E. destruct E as [_ E].
+    assert (Hne : N.eqb k (pname p) = false).
+    { destruct (N.eqb k (pname p)) eqn:E2; auto. apply N.eqb_eq in E2. subst k. congruence. }
+    cbn [pname set_kind]. rewrite Hne, !andb_false_r. reflexivity.
+  - intros p Es. apply selk_PK in Es. unfold is_kwpassable. cbn [pkind pname set_kind].
+    rewrite Es. reflexivity.
+Qed.
+
+(* a posoargs name is never keyword-passable after the rewrite *)
+Lemma passable_posos ps x :
+  (forall y, mem y posos = true -> mem y kwos = false) ->
+  forallb (kind_sel_ok posos kwos) ps = true -> mem x posos = true ->
+  kwpassable_name (adv_spec posos kwos ps) x = false.
+Proof.
+  intros Hdis Hk Hx. destruct (kwpassable_name (adv_spec posos kwos ps) x) eqn:E; auto. exfalso.
+  unfold kwpassable_name in E. apply existsb_exists in E. destruct E as (q & Hq & Hpq).
+  apply andb_true_iff in Hpq. destruct Hpq as [Hpass Hname]. apply N.eqb_eq in Hname.
+  rewrite adv_spec_parts in Hq. apply in_app_or in Hq. destruct Hq as [Hq|Hq].
+  - apply in_Xp in Hq. destruct Hq as (p & Hp & -> & Es & Ev).
+    rewrite pname_cnv in Hname. subst x.
+    destruct (is_kind PK p) eqn:Epk.
+    + assert (Ep : selp p = true) by (unfold sel_p; rewrite Epk, Hx; reflexivity).
+      unfold conv in Hpass. rewrite Ep in Hpass. discriminate.
+    + destruct (nonPK_sel posos kwos _ Epk) as [_ Ep].
+      unfold conv in Hpass. rewrite Ep in Hpass.
+      rewrite forallb_forall in Hk. specialize (Hk p Hp).
+      unfold kind_sel_ok, named in Hk. rewrite Epk, Hx, (Hdis _ Hx) in Hk.
+      simpl in Hk. rewrite andb_false_r, orb_false_r in Hk.
+      apply andb_true_iff in Hk. destruct Hk as [Hpo _]. apply is_kind_eq in Hpo.
+      unfold is_kwpassable in Hpass. rewrite Hpo in Hpass. discriminate.
+  - apply in_app_or in Hq. destruct Hq as [Hq|Hq].
+    + unfold Kk in Hq. apply in_map_iff in Hq. destruct Hq as (p & <- & Hp).
+      apply filter_In in Hp. destruct Hp as [_ Es]. cbn [pname set_kind] in Hname. subst x.
+      unfold sel_k in Es. rewrite Hx in Es. simpl in Es. rewrite andb_false_r in Es. discriminate.
+    + unfold Vk in Hq. apply filter_In in Hq. destruct Hq as [_ Ev]. apply is_kind_eq in Ev.
+      unfold is_kwpassable in Hpass. rewrite Ev in Hpass. discriminate.
+Qed.
+End CallFull.
+
+(* ------------------------------------------------------------------ the rewrite on pos ++ mid ++ vkl *)
+Lemma filter_all {A} (f : A -> bool) l : (forall x, In x l -> f x = true) -> filter f l = l.
+Proof.
+  induction l as [|x l IH]; intros H; simpl; auto.
+  rewrite (H x (or_introl eq_refl)), IH; auto. intros; apply H; right; auto.
+Qed.
+Lemma filter_none {A} (f : A -> bool) l : (forall x, In x l -> f x = false) -> filter f l = [].
+Proof.
+  induction l as [|x l IH]; intros H; simpl; auto.
+  rewrite (H x (or_introl eq_refl)), IH; auto. intros; apply H; right; auto.
+Qed.
+Lemma map_id_in {A} (g : A -> A) l : (forall x, In x l -> g x = x) -> map g l = l.
+Proof.
+  induction l as [|x l IH]; intros H; simpl; auto.
+  rewrite (H x (or_introl eq_refl)), IH; auto. intros; apply H; right; auto.
+Qed.
+
+Lemma positional_kinds p : is_positional p = true -> is_kind VK p = false.
+Proof. unfold is_positional, is_kind, kind_eqb. destruct (pkind p); simpl; congruence. Qed.
+Lemma nonpositional_notPK p : is_positional p = false -> is_kind PK p = false.
+Proof. unfold is_positional, is_kind, kind_eqb. destruct (pkind p); simpl; congruence. Qed.
+
+Lemma kwopos_from_nonPK posos kwos l : forall i,
+  (forall p, In p l -> is_kind PK p = false) -> kwopos_from posos kwos i l = [].
+Proof.
+  induction l as [|p l IH]; intros i H; simpl; auto.
+  destruct (nonPK_sel posos kwos p (H p (or_introl eq_refl))) as [Es _]. rewrite Es. simpl.
+  apply IH. intros; apply H; right; auto.
+Qed.
+
+Section Struct.
+Variables posos kwos : list name.
+Variables pos mid vkl : list param.
+Hypothesis Hpos : forallb is_positional pos = true.
+Hypothesis Hmid : forall p, In p mid -> is_positional p = false /\ is_kind VK p = false.
+Hypothesis Hvkl : vkl = [] \/ exists v, vkl = [v] /\ pkind v = VK.
+
+Lemma vkl_kind v : In v vkl -> pkind v = VK.
+Proof.
+  destruct Hvkl as [->|(w & -> & Hw)]; [intros []|]. intros [<-|[]]. exact Hw.
+Qed.
+
+Lemma tail_notPK p : In p (mid ++ vkl) -> is_kind PK p = false.
+Proof.
+  intros H. apply in_app_or in H. destruct H as [H|H].
+  - apply nonpositional_notPK. apply Hmid. exact H.
+  - apply vkl_kind in H. unfold is_kind, kind_eqb. rewrite H. reflexivity.
+Qed.
+
+Lemma adv_spec_struct :
+  adv_spec posos kwos (pos ++ mid ++ vkl)
+  = A1 posos kwos pos ++ mid ++ Kp posos kwos pos ++ vkl.
+Proof.
+  rewrite forallb_forall in Hpos.
+  unfold adv_spec, A1, Kp. rewrite !filter_app, !map_app.
+  assert (E1 : filter (fun p => negb (sel_k posos kwos p) && negb (is_kind VK p)) pos
+               = filter (fun p => negb (sel_k posos kwos p)) pos).
+  { apply filter_ext_in'. intros x Hx. rewrite (positional_kinds _ (Hpos x Hx)). apply andb_true_r. }
+  assert (Hm1 : forall p, In p mid -> sel_k posos kwos p = false /\ sel_p posos p = false).
+  { intros p Hp. apply nonPK_sel. apply tail_notPK. apply in_or_app. left; exact Hp. }
+  assert (Hv1 : forall p, In p vkl -> sel_k posos kwos p = false /\ is_kind VK p = true).
+  { intros p Hp. split.
+    - apply nonPK_sel. apply tail_notPK. apply in_or_app. right; exact Hp.
+    - apply is_kind_eq. apply vkl_kind. exact Hp. }
+  assert (E2 : filter (fun p => negb (sel_k posos kwos p) && negb (is_kind VK p)) mid = mid).
+  { apply filter_all. intros x Hx. destruct (Hm1 x Hx) as [-> _]. destruct (Hmid x Hx) as [_ ->]. reflexivity. }
+  assert (E3 : filter (fun p => negb (sel_k posos kwos p) && negb (is_kind VK p)) vkl = []).
+  { apply filter_none. intros x Hx. destruct (Hv1 x Hx) as [_ ->]. apply andb_false_r. }
+  assert (E4 : map (conv posos) mid = mid).
+  { apply map_id_in. intros x Hx. unfold conv. destruct (Hm1 x Hx) as [_ ->]. reflexivity. }
+  assert (E5 : filter (sel_k posos kwos) mid = []).
+  { apply filter_none. intros x Hx. apply Hm1. exact Hx. }
+  assert (E6 : filter (sel_k posos kwos) vkl = []).
+  { apply filter_none. intros x Hx. apply Hv1. exact Hx. }
+  assert (E7 : filter (is_kind VK) pos = []).
+  { apply filter_none. intros x Hx. apply positional_kinds. apply Hpos. exact Hx. }
+  assert (E8 : filter (is_kind VK) mid = []).
+  { apply filter_none. intros x Hx. apply Hmid. exact Hx. }
+  assert (E9 : filter (is_kind VK) vkl = vkl).
+  { apply filter_all. intros x Hx. apply Hv1. exact Hx. }
+  rewrite E1, E2, E3, E4, E5, E6, E7, E8, E9. simpl. rewrite !app_nil_r, <- !app_assoc. reflexivity.
+Qed.
+
+Lemma kwopos_struct :
+  kwopos_from posos kwos 0 (pos ++ mid ++ vkl) = kwopos_from posos kwos 0 pos.
+Proof.
+  rewrite kwopos_from_app, (kwopos_from_nonPK posos kwos (mid ++ vkl)).
+  - apply app_nil_r.
+  - intros p Hp. apply tail_notPK. exact Hp.
+Qed.
+End Struct.
+
+Lemma NoDup_app_disjoint {A} (a b : list A) : NoDup (a ++ b) -> forall x, In x a -> In x b -> False.
+Proof.
+  induction a as [|y a IH]; intros H x Ha Hb; [destruct Ha|].
+  simpl in H. inversion H; subst. destruct Ha as [<-|Ha].
+  - apply H2. apply in_or_app. right; exact Hb.
+  - exact (IH H3 x Ha Hb).
+Qed.
+
+Lemma NoDup_app_left {A} (a b : list A) : NoDup (a ++ b) -> NoDup a.
+Proof.
+  induction a as [|y a IH]; intros H; [constructor|].
+  simpl in H. inversion H; subst. constructor; auto.
+  intro Hin. apply H2. apply in_or_app. left; exact Hin.
+Qed.
+
+Lemma klookup_In k kws v : klookup k kws = Some v -> In k (map fst kws).
+Proof.
+  induction kws as [|[k' v'] kws IH]; simpl; [discriminate|].
+  destruct (N.eqb k k') eqn:E; auto. apply N.eqb_eq in E. auto.
+Qed.
+
+(* ------------------------------------------------------------------ C12_call *)
+Definition same_binding (o a : option env) : Prop :=
+  match o, a with
+  | Some eo, Some ea => Permutation eo ea
+  | None, None => True
+  | _, _ => False
+  end.
+
+(* the only calls left out: a keyword naming a posoargs parameter while the
+   advertised signature has **kwargs *)
+Definition named_posonly (adv : list param) (posos : list name) (kws : kwargs) : bool :=
+  has_kind VK adv && negb (is_nil (set_inter posos (map fst kws))).
+
+Theorem C12_call ps posos kwos adv kp args kws :
+  valid_sig ps = true -> prepare ps posos kwos = Ok (adv, kp) ->
+  named_posonly adv posos kws = false ->
+  same_binding (decorated_call ps kp posos args kws) (bindv adv args kws).
+Proof.
+  intros Hv Hprep Hex.
+  rewrite (C12_sig ps posos kwos Hv) in Hprep.
+  destruct (admissible posos kwos ps) eqn:Hadm; [|discriminate].
+  inversion Hprep; subst adv kp; clear Hprep.
+  unfold admissible in Hadm. apply andb_true_iff in Hadm. destruct Hadm as [Hadm Hpo].
+  apply andb_true_iff in Hadm. destruct Hadm as [Hadm Hkinds].
+  apply andb_true_iff in Hadm. destruct Hadm as [Hdisj Hnames].
+  assert (Hdis : forall y, mem y posos = true -> mem y kwos = false).
+  { intros y Hy. destruct (mem y kwos) eqn:E; auto.
+    rewrite is_nil_mem in Hdisj. specialize (Hdisj y). rewrite mem_set_inter, Hy, E in Hdisj.
+    discriminate. }
+  destruct (valid_structure ps Hv) as (pos & mid & vkl & Hps & Hpos & Hmid & Hvkl & Hnd).
+  assert (Hadv : adv_spec posos kwos ps
+                 = A1 posos kwos pos ++ mid ++ Kp posos kwos pos ++ vkl).
+  { rewrite Hps. apply adv_spec_struct; auto. }
+  assert (Hkp : kwopos_from posos kwos 0 ps = kwopos_from posos kwos 0 pos).
+  { rewrite Hps. apply kwopos_struct; auto. }
+  assert (Hnames_app : names_of ps = names_of pos ++ names_of (mid ++ vkl)).
+  { rewrite Hps. unfold names_of. rewrite map_app. reflexivity. }
+  assert (HndPos : NoDup (names_of pos)).
+  { rewrite Hnames_app in Hnd. apply NoDup_app_left in Hnd. exact Hnd. }
+  assert (Htail_notin : forall q, In q (mid ++ vkl) -> ~ In (pname q) (names_of pos)).
+  { intros q Hq Hin. rewrite Hnames_app in Hnd.
+    apply (NoDup_app_disjoint _ _ Hnd (pname q) Hin). apply in_map. exact Hq. }
+  set (adv := adv_spec posos kwos ps) in *.
+  unfold decorated_call, pok_call. rewrite Hkp.
+  destruct (is_nil (set_inter posos (map fst kws))) eqn:Ei; cbn [negb].
+  - (* no keyword names a posoargs parameter *)
+    assert (Hb : forall k, In k (map fst kws) -> mem k posos = false).
+    { intros k Hk. rewrite is_nil_mem in Ei. specialize (Ei k). rewrite mem_set_inter in Ei.
+      apply mem_In in Hk. rewrite Hk, andb_true_r in Ei. exact Ei. }
+    assert (Hbl : forall p, In p pos -> sel_p posos p = true -> klookup (pname p) kws = None).
+    { intros p _ Hsp. destruct (klookup (pname p) kws) eqn:E; auto.
+      apply klookup_In in E. apply Hb in E.
+      unfold sel_p in Hsp. apply andb_true_iff in Hsp. destruct Hsp as [_ Hsp]. congruence. }
+    destruct (missingb posos kwos pos kws) eqn:Em.
+    + (* a required moved parameter is not given *)
+      pose proof (call_loop_missing posos kwos pos 0%nat args kws [] HndPos Em) as Hmiss.
+      destruct (call_loop (kwopos_from posos kwos 0 pos) args kws []) as [[a' k'] m'].
+      cbn [snd] in Hmiss. destruct m' as [|m0 m']; [contradiction|].
+      assert (Hnone : bind_params adv (A1 posos kwos pos ++ mid ++ Kp posos kwos pos ++ vkl) args kws = None).
+      { rewrite bind_app.
+        destruct (bind_params adv (A1 posos kwos pos) args kws) as [[e1 r1]|]; auto.
+        rewrite bind_app. destruct (bind_params adv mid r1 kws) as [[e2 r2]|]; auto.
+        rewrite bind_app, Kp_none; auto. }
+      rewrite <- Hadv in Hnone.
+      unfold bindv. rewrite Hnone.
+      destruct (has_kind VK adv || is_nil (kw_extra adv kws)); exact I.
+    + (* every moved parameter has a value *)
+      pose proof (missingb_false _ _ _ _ Em) as Hnm.
+      pose proof (call_loop_shufT posos kwos pos [] args kws [] HndPos Hnm) as Hcl.
+      cbn [length app] in Hcl. rewrite Hcl. clear Hcl.
+      set (args' := fst (shufT posos kwos pos args kws)).
+      set (kws' := snd (shufT posos kwos pos args kws)).
+      assert (He1 : kw_extra ps kws' = kw_extra ps kws).
+      { apply kw_extra_shufT. intros p Hp Hs. apply selk_PK in Hs.
+        unfold kwpassable_name. apply existsb_exists. exists p. split.
+        - rewrite Hps. apply in_or_app. left; exact Hp.
+        - unfold is_kwpassable. rewrite Hs, N.eqb_refl. reflexivity. }
+      assert (He2 : kw_extra ps kws = kw_extra adv kws).
+      { unfold kw_extra. apply filter_ext_in'. intros kv Hkv. f_equal. symmetry.
+        apply passable_adv. apply Hb. apply in_map. exact Hkv. }
+      assert (Hvk : has_kind VK adv = has_kind VK ps) by apply has_kind_VK_adv.
+      unfold bindv. rewrite Hvk, He1, He2.
+      destruct (has_kind VK ps || is_nil (kw_extra adv kws)); [|exact I].
+      replace (bind_params ps ps args' kws')
+        with (bind_params ps (pos ++ mid ++ vkl) args' kws') by (rewrite <- Hps; reflexivity).
+      replace (bind_params adv adv args kws)
+        with (bind_params adv (A1 posos kwos pos ++ mid ++ Kp posos kwos pos ++ vkl) args kws)
+        by (rewrite <- Hadv; reflexivity).
+      rewrite (bind_app ps pos), (bind_app adv (A1 posos kwos pos)).
+      pose proof (heart posos kwos pos args kws kws kws' ps adv adv Hpos HndPos
+                    (fun p _ => eq_refl) Hbl Hnm Hnm eq_refl) as HR.
+      fold args' in HR.
+      destruct (bind_params ps pos args' kws') as [[eo ro]|],
+               (bind_params adv (A1 posos kwos pos) args kws) as [[ea ra]|],
+               (bind_params adv (Kp posos kwos pos) [] kws) as [[ek rk]|] eqn:EK;
+        cbn [R3] in HR; try contradiction; [|exact I].
+      destruct HR as [Hperm ->].
+      assert (Htail : bind_params ps (mid ++ vkl) ra kws' = bind_params adv (mid ++ vkl) ra kws).
+      { apply bind_ext.
+        - intros q Hq. unfold kws'. apply shufT_lookup. apply Htail_notin. exact Hq.
+        - rewrite He1, He2. reflexivity. }
+      rewrite Htail, (bind_app adv mid), (bind_app adv mid).
+      destruct (bind_params adv mid ra kws) as [[em rm]|]; [|exact I].
+      rewrite (bind_app adv (Kp posos kwos pos)).
+      rewrite (bind_transparent adv (Kp posos kwos pos) rm kws), EK.
+      * destruct (bind_params adv vkl rm kws) as [[ev rv]|]; [|exact I].
+        destruct rv; [|exact I]. cbn [same_binding].
+        apply Permutation_trans with ((ea ++ ek) ++ em ++ ev).
+        -- apply Permutation_app_tail. exact Hperm.
+        -- rewrite <- app_assoc. apply Permutation_app_head. apply Permutation_app_swap_app.
+      * intros p Hp. unfold Kp in Hp. apply in_map_iff in Hp. destruct Hp as (q & <- & _).
+        left. reflexivity.
+  - (* a keyword names a posoargs parameter: TypeError; the advertised signature
+       has no **kwargs, so it rejects the keyword as well *)
+    unfold named_posonly in Hex. rewrite Ei in Hex. cbn [negb] in Hex.
+    rewrite andb_true_r in Hex.
+    destruct (set_inter posos (map fst kws)) as [|x l] eqn:Eint; [discriminate|].
+    assert (Hx : In x (set_inter posos (map fst kws))) by (rewrite Eint; left; reflexivity).
+    unfold set_inter in Hx. apply filter_In in Hx. destruct Hx as [Hxp Hxk].
+    apply mem_In in Hxk. apply in_map_iff in Hxk. destruct Hxk as (kv & Hfst & Hkv).
+    assert (Hnp : kwpassable_name adv x = false).
+    { apply passable_posos; auto. apply mem_In. exact Hxp. }
+    assert (Hin : In kv (kw_extra adv kws)).
+    { unfold kw_extra. apply filter_In. split; auto. rewrite Hfst, Hnp. reflexivity. }
+    unfold bindv. rewrite Hex.
+    destruct (kw_extra adv kws) as [|y l']; [destruct Hin|]. exact I.
+Qed.
+
+(* ------------------------------------------------------------------ the property's own exclusion *)
+Lemma posos_name_is_PO ps posos kwos x :
+  admissible posos kwos ps = true -> mem x posos = true ->
+  existsb (fun p => is_kind PO p && N.eqb x (pname p)) (adv_spec posos kwos ps) = true.
+Proof.
+  intros Hadm Hx. unfold admissible in Hadm.
+  apply andb_true_iff in Hadm. destruct Hadm as [Hadm _].
+  apply andb_true_iff in Hadm. destruct Hadm as [Hadm Hkinds].
+  apply andb_true_iff in Hadm. destruct Hadm as [Hdisj Hnames].
+  assert (Hxk : mem x kwos = false).
+  { destruct (mem x kwos) eqn:E; auto. rewrite is_nil_mem in Hdisj. specialize (Hdisj x).
+    rewrite mem_set_inter, Hx, E in Hdisj. discriminate. }
+  rewrite forallb_forall in Hnames.
+  assert (Hin : In x (posos ++ kwos)) by (apply in_or_app; left; apply mem_In; exact Hx).
+  specialize (Hnames x Hin). apply mem_In in Hnames. unfold names_of in Hnames.
+  apply in_map_iff in Hnames. destruct Hnames as (p & Hpn & Hp). subst x.
+  rewrite forallb_forall in Hkinds. specialize (Hkinds p Hp).
+  unfold kind_sel_ok, named in Hkinds. rewrite Hx, Hxk in Hkinds. simpl in Hkinds.
+  rewrite andb_false_r, orb_false_r, andb_true_r in Hkinds.
+  assert (Es : sel_k posos kwos p = false).
+  { unfold sel_k. rewrite Hx. simpl. rewrite andb_false_r. reflexivity. }
+  rewrite ?orb_false_r in Hkinds.
+  assert (Ev : is_kind VK p = false).
+  { apply orb_true_iff in Hkinds. destruct Hkinds as [H|H]; apply is_kind_eq in H;
+      unfold is_kind, kind_eqb; rewrite H; reflexivity. }
+  apply existsb_exists. exists (conv posos p). split.
+  - rewrite adv_spec_parts. apply in_or_app. left. unfold Xp. apply in_map.
+    apply filter_In. split; auto. rewrite Es, Ev. reflexivity.
+  - rewrite pname_cnv, N.eqb_refl, andb_true_r. unfold conv, sel_p. rewrite Hx, andb_true_r.
+    destruct (is_kind PK p) eqn:Epk; [reflexivity|]. simpl in Hkinds. exact Hkinds.
+Qed.
+
+Lemma excluded_covers ps posos kwos kws :
+  admissible posos kwos ps = true ->
+  excluded (adv_spec posos kwos ps) kws = false ->
+  named_posonly (adv_spec posos kwos ps) posos kws = false.
+Proof.
+  intros Hadm Hex. unfold named_posonly, excluded in *.
+  destruct (has_kind VK (adv_spec posos kwos ps)); [|reflexivity]. cbn [andb] in *.
+  destruct (set_inter posos (map fst kws)) as [|x l] eqn:Eint; [reflexivity|]. exfalso.
+  assert (Hx : In x (set_inter posos (map fst kws))) by (rewrite Eint; left; reflexivity).
+  unfold set_inter in Hx. apply filter_In in Hx. destruct Hx as [Hxp Hxk].
+  apply mem_In in Hxk. apply in_map_iff in Hxk. destruct Hxk as (kv & Hfst & Hkv).
+  assert (Ht : existsb (fun kv0 => existsb (fun p => is_kind PO p && N.eqb (fst kv0) (pname p))
+                                           (adv_spec posos kwos ps)) kws = true).
+  { apply existsb_exists. exists kv. split; auto. cbv beta. rewrite Hfst.
+    apply posos_name_is_PO; auto. apply mem_In. exact Hxp. }
+  congruence.
+Qed.
+
+Theorem C12_call_excluded ps posos kwos adv kp args kws :
+  valid_sig ps = true -> prepare ps posos kwos = Ok (adv, kp) ->
+  excluded adv kws = false ->
+  same_binding (decorated_call ps kp posos args kws) (bindv adv args kws).
+Proof.
+  intros Hv Hprep Hex. apply C12_call; auto.
+  rewrite (C12_sig ps posos kwos Hv) in Hprep.
+  destruct (admissible posos kwos ps) eqn:Hadm; [|discriminate].
+  inversion Hprep; subst adv kp. apply excluded_covers; auto.
+Qed.
+
+(* ------------------------------------------------------------------ the decorators (every form) *)
+Lemma same_binding_refl o : same_binding o o.
+Proof. destruct o; simpl; auto. Qed.
+
+Theorem C12_sig_decorate ps f :
+  valid_sig ps = true ->
+  decorate ps f =
+  match select ps f with
+  | Err e => Err e
+  | Ok (posos, kwos) =>
+      match posos, kwos with
+      | [], [] => Ok (ps, [], [])                 (* the function itself is returned *)
+      | _, _ => if admissible posos kwos ps
+                then Ok (adv_spec posos kwos ps, kwopos_from posos kwos 0 ps, posos)
+                else Err ValueErr
+      end
+  end.
+Proof.
+  intros Hv. unfold decorate. destruct (select ps f) as [[posos kwos]|e]; cbn [bind]; auto.
+  destruct posos as [|x posos]; [destruct kwos as [|y kwos]; [reflexivity|]|];
+    rewrite (C12_sig _ _ _ Hv);
+    match goal with |- context [admissible ?a ?b ?c] => destruct (admissible a b c) end; reflexivity.
+Qed.
+
+Theorem C12_call_decorate ps f adv kp posos args kws :
+  valid_sig ps = true -> decorate ps f = Ok (adv, kp, posos) ->
+  named_posonly adv posos kws = false ->
+  same_binding (decorated_call ps kp posos args kws) (bindv adv args kws).
+Proof.
+  intros Hv Hd Hex. unfold decorate in Hd.
+  destruct (select ps f) as [[P K]|e]; cbn [bind] in Hd; [|discriminate].
+  assert (Hcase : (P = [] /\ K = [] /\ adv = ps /\ kp = [] /\ posos = []) \/
+                  prepare ps posos K = Ok (adv, kp)).
+  { destruct P as [|x P]; [destruct K as [|y K]|].
+    - left. inversion Hd; auto.
+    - right. destruct (prepare ps [] (y :: K)) as [[a k]|]; cbn [bind fst snd] in Hd; inversion Hd; reflexivity.
+    - right. destruct (prepare ps (x :: P) K) as [[a k]|]; cbn [bind fst snd] in Hd; inversion Hd; reflexivity. }
+  destruct Hcase as [(-> & -> & -> & -> & ->)|Hp].
+  - unfold decorated_call, pok_call. cbn. apply same_binding_refl.
+  - exact (C12_call ps posos K adv kp args kws Hv Hp Hex).
+Qed.
